@@ -16,7 +16,8 @@ template <typename T> struct PowerMap
 {
     std::vector<T> a;
     T jac;
-    PowerMap() : jac(T()) {}
+    T cut;      // all densities vanish for x_0 < cut (a phase-space cut): the weight is not finite there
+    PowerMap() : jac(T()), cut(T()) {}
     T operator()(std::size_t channel, std::vector<T> const& rn, std::vector<T>& co, std::vector<std::size_t> const& enabled,
         std::vector<T>& dens, hep::multi_channel_map action) const
     {
@@ -30,7 +31,7 @@ template <typename T> struct PowerMap
         {
             T p = T(1);
             for (std::size_t k = 0; k < co.size(); ++k) p *= (a[j] + T(1)) * std::pow(co[k], a[j]);
-            dens[j] = J * p;
+            dens[j] = (co[0] < cut) ? T() : J * p;
         }
         return J;
     }
